@@ -321,7 +321,10 @@ std::vector<float> spreadCells(const std::vector<float> &targets,
       continue;
     }
     dem += 0.5f * curDemand * invTotalDemand;
-    coords[c] = dem * maxCoord + (1.0f - dem) * minCoord;
+    // Rounding may push the interpolation outside of the bin (dem may even
+    // exceed 1 after many additions): keep the coordinate within the bin
+    float coord = dem * maxCoord + (1.0f - dem) * minCoord;
+    coords[c] = std::max(minCoord, std::min(maxCoord, coord));
     dem += 0.5f * curDemand * invTotalDemand;
   }
   return coords;
